@@ -321,6 +321,12 @@ func (c *Conn) Read(b []byte) (int, error) {
 
 func (c *Conn) Write(b []byte) (int, error) {
 	c.logOp("write", len(b))
+	c.wr.mu.Lock()
+	lateData := c.wr.rclosed && !c.wr.reset && len(b) > 0
+	c.wr.mu.Unlock()
+	if lateData {
+		c.lateDataResets()
+	}
 	n, err := c.wr.write(b)
 	if f := c.OnWrite; f != nil && n > 0 {
 		c.wr.mu.Lock()
@@ -874,7 +880,11 @@ func (c *Conn) Inject(b []byte) {
 	p := c.wr
 	p.mu.Lock()
 	if p.reset || p.wclosed || p.rclosed {
+		lateData := p.rclosed && !p.reset && len(b) > 0
 		p.mu.Unlock()
+		if lateData {
+			c.lateDataResets()
+		}
 		return
 	}
 	p.nWritten += int64(len(b))
@@ -885,6 +895,26 @@ func (c *Conn) Inject(b []byte) {
 		p.inflight = append(p.inflight, b...)
 	}
 	p.mu.Unlock()
+}
+
+// lateDataResets: this end sends data to a peer that has closed its socket. With the personality
+// ResetOnCloseWithUnread the peer's kernel answers with a reset and throws away what the peer had
+// written but not yet got delivered - the other way of losing the tail of a stream to close(2).
+func (c *Conn) lateDataResets() {
+	if c.net == nil || !c.net.ResetOnCloseWithUnread {
+		return
+	}
+	c.rd.mu.Lock()
+	pending := len(c.rd.inflight)
+	c.rd.mu.Unlock()
+	if pending == 0 {
+		return
+	}
+	c.net.mu.Lock()
+	c.net.RSTOnClose++
+	c.net.mu.Unlock()
+	c.rd.doReset()
+	c.wr.doReset()
 }
 
 // Room returns how many more bytes this end may write before a real writer would block.
